@@ -20,6 +20,7 @@ macro_rules! dispatch {
             "C09" => fw::$f::<props::c09::C09>($($arg),*),
             "C11" => fw::$f::<props::c11::C11>($($arg),*),
             "C12" => fw::$f::<props::c12::C12>($($arg),*),
+            "C13" => fw::$f::<props::c13::C13>($($arg),*),
             "C14" => fw::$f::<props::c14::C14>($($arg),*),
             "C16" => fw::$f::<props::c16::C16>($($arg),*),
             "C17" => fw::$f::<props::c17::C17>($($arg),*),
